@@ -747,15 +747,19 @@ fn c15_rgb_targets(ctx: &Ctx) -> u64 {
 pub fn c15(ctx: &Ctx) {
     let (n1, nsizes) = c15_table(ctx);
     // Part 2
-    let sizes: Vec<(usize, usize)> = vec![(2, 576), (576, 2), (2, 480), (480, 2), (2, 488), (488, 2), (1280, 2), (2, 1280), (2, 2), (16, 480), (480, 16), (16, 576), (2, 577), (1279, 2), (6, 481), (2, 66112), (66176, 2)];
+    let sizes: Vec<(usize, usize)> = vec![(2, 576), (576, 2), (2, 480), (480, 2), (2, 488), (488, 2), (1280, 2), (2, 1280), (2, 2), (16, 480), (480, 16), (16, 576), (2, 577), (1279, 2), (6, 481), (2, 66112), (66176, 2), (1280, 576), (1280, 480)];
     let all_m: Vec<MC> = ALL_MC.iter().copied().chain([MC::Unspecified]).collect();
     let mut cases = Vec::new();
     for (si, &(w, h)) in sizes.iter().enumerate() {
         for (mi, &m) in all_m.iter().enumerate() {
             for mask in 1u8..8 {
                 for (di, depth) in [8u8, 10, 12, 16].iter().enumerate() {
-                    // the two images with a side beyond 16 bits: a thin slice
+                    // the images with a side beyond 16 bits, and the two where width and height decide together (HD by
+                    // width at an SD line count): a thin slice
                     if w * h > 100_000 && !(*depth == 8 && mask % 2 == 1 && mi % 4 == 2) {
+                        continue;
+                    }
+                    if w * h > 500_000 && !(mask == 3 || mask == 7) {
                         continue;
                     }
                     cases.push((w, h, m, mask, *depth, (si * 1000 + mi * 50 + mask as usize * 5 + di) as u64));
